@@ -1813,7 +1813,8 @@ def legal_oddities(fam):
         # goat writes a second close / a body after the close then - DESIGN section 6; here the stream is over by then)
         add('Recv again and again after EOF', 'bidi', echo_then_ok, [S('a'), R, C, R, R, R, R, T, T], ser)
         add('Recv again after an error status', 'bidi', [dict(o='recv'), ret(code=9, msg='precondition', det=1)], [S('a'), R, R, R, T, S('late'), R], ser)
-        add('Trailer before the stream has ended', 'bidi', echo_then_ok, [T, S('a'), T, R, C, R, T], ser)
+        add('Trailer before the stream has ended', 'bidi', [dict(o='settrl', md=md2), dict(o='settrl', md=md3), dict(o='echo')], [T, S('a'), T, R, C, R, T, T], ser)
+        add('Trailer asked between the messages of a server stream', 'ss', [dict(o='recv'), dict(o='settrl', md=md2), dict(o='send', pay='x1'), dict(o='send', pay='x2'), dict(o='settrl', md=md3), dict(o='drain'), ret(code=4, msg='late')], [S('q'), C, R, T, R, T, R, T], ser)
         add('Header three times, before, between and after receives', 'bidi', [dict(o='sethdr', md=md1), dict(o='echo')], [S('a'), H, R, H, C, R, H, T], ser)
         add('Header on a stream that fails before any response', 'bidi', [ret(code=5, msg='nope')], [H, R, H, T], ser)
         add('Header after the stream ended with headers in its trailer envelope', 'ss', [dict(o='recv'), dict(o='sethdr', md=md1), dict(o='settrl', md=md2), ret()], [S('q'), C, R, H, T, H], ser)
